@@ -3,6 +3,7 @@ package core
 import (
 	"go/ast"
 	"go/token"
+	"go/types"
 )
 
 // AssumeFn is the type of FlowSpec.Assume.
@@ -47,4 +48,19 @@ func AssumeAll(fs ...AssumeFn) AssumeFn {
 		}
 		return Unknown
 	}
+}
+
+// TypeShort renders a (pointer to a) named type as pkg.Name with the module
+// prefix removed; other types as their String().
+func TypeShort(t types.Type) string {
+	if p, ok := t.(*types.Pointer); ok {
+		t = p.Elem()
+	}
+	if n, ok := t.(*types.Named); ok {
+		if n.Obj().Pkg() == nil {
+			return n.Obj().Name()
+		}
+		return shortenPath(n.Obj().Pkg().Path()) + "." + n.Obj().Name()
+	}
+	return t.String()
 }
